@@ -88,6 +88,45 @@ def readThenConsumeError (chars : Array Char) (position : Nat) : Outcome (List C
     if position = 0 then .panic else slice chars (position - 1) chars.size
   else .ok []
 
+/-! ### `lexer/structured_references.rs::Lexer::consume_column_reference` -/
+
+/-- models the scan loop `while position < self.len { … }`: a `'` escapes the next character (two
+    characters are skipped); `none` = `LexerError("Invalid column name")` when the text ends right
+    after the quote.  The order matters: the quote is passed FIRST, then `position == len` is
+    tested, and only then the escaped character is skipped. -/
+def columnRefLoop (chars : Array Char) (endChar : Char) : Nat → Nat → Outcome (Option Nat)
+  | 0, _ => .fuel
+  | fuel + 1, position =>
+    if position < chars.size then
+      match chars[position]? with
+      | none => .panic
+      | some c =>
+        if c ≠ endChar then
+          let position := position + 1
+          if c = '\'' then
+            if position = chars.size then .ok none
+            else columnRefLoop chars endChar fuel (position + 1)
+          else columnRefLoop chars endChar fuel position
+        else .ok (some position)
+    else .ok (some position)
+
+/-- models `consume_column_reference` from the `[` test on (whitespace already consumed):
+    the slice `chars[self.position..position]`, and the new position (`position + 1` when the end
+    character is `]` — also when no `]` was found, so the new position can be `len + 1`) -/
+def consumeColumnReference (chars : Array Char) (start : Nat) : Outcome (Option (List Char × Nat)) :=
+  let bracket := chars[start]? = some '['
+  let endChar := if bracket then ']' else ')'
+  let start := if bracket then start + 1 else start
+  match columnRefLoop chars endChar (chars.size + 1) start with
+  | .panic => .panic
+  | .fuel => .fuel
+  | .ok none => .ok none
+  | .ok (some position) =>
+    match slice chars start position with
+    | .panic => .panic
+    | .fuel => .fuel
+    | .ok s => .ok (some (s, if bracket then position + 1 else position))
+
 /-! ### `utils/mod.rs::parse_reference_r1c1` (bytes) -/
 
 def isDigit (b : UInt8) : Bool := 48 ≤ b && b ≤ 57
